@@ -24,6 +24,7 @@ from ..util import (
     is_categorical,
     is_pyarrow_backed,
     mean_from_sum_count,
+    pandas_type_from_array,
     parallel_map,
     series_is_numeric,
     series_is_timestamp,
@@ -321,12 +322,26 @@ class GroupBy:
             if tz is not None:
                 group_key, _ = _convert_timestamp_to_tz_unaware(group_key)
 
+        # Arrow / polars dates likewise: factorized as the timestamps of their midnights,
+        # the labels are cast back to dates at the end.
+        date_type = None
+        key_type = pandas_type_from_array(group_key)
+        if isinstance(key_type, pd.ArrowDtype) and pa.types.is_date(
+            key_type.pyarrow_dtype
+        ):
+            date_type = key_type
+            group_key = to_arrow(group_key).cast(pa.timestamp("ms"))
+
         def restore_time_zone():
             if tz is not None:
                 self._result_index = (
                     pd.DatetimeIndex(self._result_index)
                     .tz_localize("UTC")
                     .tz_convert(tz)
+                )
+            elif date_type is not None:
+                self._result_index = pd.Index(
+                    pd.array(pd.DatetimeIndex(self._result_index), dtype=date_type)
                 )
 
         # first try monotonic (increasing) factorization.
